@@ -10,6 +10,7 @@ claimed = {
  "C10": ("crash-point invariant of Handler.commit on a ghost file system: after every file-system call the table path holds the complete old or the complete new contents, on success the new ones; FileForUpdate routes writes to the temp file; Container.Commit delegates to commit for the registered handler; POSIX semantics of rename/remove/create are assumed contracts", "4 C10"),
  "C11": ("on a ghost file system: Handler.close / closeWithErrors / commit and ControlFile.Close leave none of the handler's control files and never touch the table of a read or update handler; every failed acquisition (NewHandlerFor*, TryCreate*) leaves no control file of its own; the transient lock of TryCreateRLockFile is removed on every path; signals and the retry loop (select) are outside", "4 C11"),
  "C15": ("block stack and lookups: CreateChild puts one new block in front of the parent's (shared, unchanged) blocks; GetVariable / SubstituteVariableDirectly / FetchCursor act on the innermost block that declares the name and touch no other block (ghost model of the sync.Map-backed block maps); control-flow mapping of WHILE / function calls is not yet under contract", "4 C15"),
+ "C17": ("window frames (WindowFrameSet and its two helpers: one frame per row with the bounds the ROWS clause prescribes, whole partition only without ORDER BY or for UNBOUNDED..UNBOUNDED) and NTILE (closed form of the tile of every row, for all partition sizes and tile counts) are proved; sort-key equivalence/ordering lemmas are shared with C07; ranking, FIRST/LAST/NTH_VALUE, LAG/LEAD and aggregates OVER are not yet under contract", "4 C17"),
  "C16": ("Cursor.Fetch/Close/IsOpen/IsInRange/Count/Pointer proved against an abstract (snapshot, position) view for all positions and offsets, with machine integer arithmetic modelled exactly", "4 C16"),
 }
 na = {
